@@ -41,7 +41,7 @@ Construct(vs, es) ==
 
 \* ---------- queries: nothing but the observation changes ----------
 Queries == {"calc_chi2", "edge_error", "edge_chi2", "edge_jacobians", "edge_contribs", "equals", "to_g2o", "plot", "vertex_to_g2o", "edge_to_g2o",
-            "pose_ops", "pose_copy", "vertex_equals", "edge_equals", "edge_plot"}
+            "pose_ops", "pose_copy", "vertex_equals", "edge_equals", "edge_plot", "edge_numjac"}
 QueryEffect(q) == status = "ready" /\ q \in Queries /\ UNCHANGED <<verts, edges, status>>
 Query(q) == QueryEffect(q) /\ obs' = [op |-> q]
 
